@@ -275,7 +275,11 @@ func (e *Engine) displayMultilinePrompts() {
 	if e.line.Lines() > 1 {
 		term.MoveCursorUp(e.lineRows)
 		term.MoveCursorBackwards(term.GetWidth())
-		e.prompt.MultilineColumnPrint()
+
+		// The column is only printed when one is configured, and on as many rows
+		// as there are newlines: go back down to the last row of the line anyway.
+		printed := e.prompt.MultilineColumnPrint()
+		term.MoveCursorDown(e.lineRows - printed)
 	}
 
 	// Then if we have a line at all, rewrite the last column
